@@ -323,7 +323,7 @@ def classify(v):
     leftover = [j for j in range(len(right)) if j not in fm]
     if v.get("clause") == "raised" and by1 != by2 and leftover:
         return "renamed-by-and-a-right-item-not-merged-into-the-left-join"
-    if v.get("clause") in ("right-item-missing", "extra-item") and leftover:
+    if v.get("clause") == "extra-item" and leftover:
         lpay = set().union(*[set(R.nonkey(x, by1)) for x in left]) if left else set()
         rpay = set().union(*[set(R.nonkey(x, by2)) for x in right])
         dup = [j for j in leftover
